@@ -189,3 +189,68 @@ def twin_secret_keys(n: int):
         a, b = truncated_digest_collision(lambda i: (base + i).to_bytes(32, "big"), digest=dg)
         pairs.append((name, int.from_bytes(a, "big"), int.from_bytes(b, "big")))
     return pairs
+
+
+def substrings_across(constants, joined_all=True):
+    """every non-empty proper substring of a constant, of two constants written one after the other (either order) and of all
+    of them joined in listed order, that is not itself a constant: what `x in "".join(constants)` / a membership test against
+    a tuple that lost its commas accepts"""
+    joins = list(constants) + [a + b for a in constants for b in constants if a != b]
+    if joined_all:
+        joins.append(type(constants[0])().join(constants))
+    out = []
+    for j in joins:
+        for i in range(len(j)):
+            for k in range(i + 1, len(j) + 1):
+                w = j[i:k]
+                if w not in constants and w not in out:
+                    out.append(w)
+    return out
+
+
+def bech32_zero_state(hrp: str, version: int, nbytes: int, fill: bytes, target: int = 0):
+    """witness programs for which the Bech32 polymod over hrp_expand(hrp) + [version] + program symbols (BEFORE the six
+    checksum positions are absorbed) equals `target` (default 0, the one state an `x or initial` shortcut mistakes for
+    'no state').  The state is affine over GF(2) in the program bits: one 30x30 system per 6-symbol window.  Yields programs."""
+    from vf.ref import bech32_ref as B
+    base5 = B.convertbits(list(fill[:nbytes]), 8, 5)
+    nfull = (nbytes * 8) // 5
+    for w in range(0, nfull - 6 + 1):
+        def st(x):
+            d = list(base5)
+            for s in range(6):
+                d[w + s] = (x >> (5 * (5 - s))) & 31
+            return B.polymod(B.hrp_expand(hrp) + [version] + d), d
+        c0, _ = st(0)
+        cols = [st(1 << j)[0] ^ c0 for j in range(30)]
+        rows = []
+        rhs = c0 ^ target
+        for i in range(30):
+            r = 0
+            for j in range(30):
+                r |= ((cols[j] >> i) & 1) << j
+            r |= ((rhs >> i) & 1) << 30
+            rows.append(r)
+        rr, piv = 0, {}
+        for col in range(30):
+            p = next((k for k in range(rr, 30) if (rows[k] >> col) & 1), None)
+            if p is None:
+                continue
+            rows[rr], rows[p] = rows[p], rows[rr]
+            for k in range(30):
+                if k != rr and (rows[k] >> col) & 1:
+                    rows[k] ^= rows[rr]
+            piv[col] = rr
+            rr += 1
+        if any(rows[k] >> 30 for k in range(rr, 30)):
+            continue
+        x = 0
+        for col, k in piv.items():
+            if rows[k] >> 30:
+                x |= 1 << col
+        v, d = st(x)
+        if v != target:
+            continue
+        prog = bytes(B.convertbits(d, 5, 8, pad=False) or [])
+        if len(prog) == nbytes:
+            yield prog
